@@ -117,16 +117,17 @@ pub(crate) const ROC_INVERSE_ERA_IDENTIFIERS: [TinyAsciiStr<19>; 2] = [
 // NOTE: The below currently might not align 100% with ICU4X.
 // TODO: Update to align with ICU4X depending on any Era updates.
 pub(crate) const ISO_ERA: EraInfo = valid_era!("default", i32::MIN..=i32::MAX);
-pub(crate) const BUDDHIST_ERA: EraInfo = valid_era!("buddhist", i32::MIN..=i32::MAX);
+pub(crate) const BUDDHIST_ERA: EraInfo = valid_era!("be", i32::MIN..=i32::MAX);
 pub(crate) const CHINESE_ERA: EraInfo = valid_era!("chinese", i32::MIN..=i32::MAX);
 pub(crate) const COPTIC_ERA: EraInfo = valid_era!("coptic", 1..=i32::MAX);
 pub(crate) const COPTIC_INVERSE_ERA: EraInfo = valid_era!("coptic-inverse", 1..=i32::MAX);
 pub(crate) const DANGI_ERA: EraInfo = valid_era!("dangi", i32::MIN..=i32::MAX);
 pub(crate) const ETHIOPIC_ERA: EraInfo = valid_era!("ethiopic", 1..=i32::MAX);
+pub(crate) const ETHIOPIC_INVERSE_ERA: EraInfo = valid_era!("ethiopic-inverse", 1..=i32::MAX);
 pub(crate) const ETHIOPIC_ETHIOAA_ERA: EraInfo = valid_era!("ethioaa", i32::MIN..=5500);
 pub(crate) const ETHIOAA_ERA: EraInfo = valid_era!("ethioaa", i32::MIN..=i32::MAX);
-pub(crate) const GREGORY_ERA: EraInfo = valid_era!("gregory", 1..=i32::MAX);
-pub(crate) const GREGORY_INVERSE_ERA: EraInfo = valid_era!("gregory-inverse", 1..=i32::MAX);
+pub(crate) const GREGORY_ERA: EraInfo = valid_era!("ce", 1..=i32::MAX);
+pub(crate) const GREGORY_INVERSE_ERA: EraInfo = valid_era!("bce", 1..=i32::MAX);
 pub(crate) const HEBREW_ERA: EraInfo = valid_era!("hebrew", i32::MIN..=i32::MAX);
 pub(crate) const INDIAN_ERA: EraInfo = valid_era!("indian", i32::MIN..=i32::MAX);
 pub(crate) const ISLAMIC_ERA: EraInfo = valid_era!("islamic", i32::MIN..=i32::MAX);
@@ -139,10 +140,10 @@ pub(crate) const ISLAMIC_UMALQURA_ERA: EraInfo =
 pub(crate) const HEISEI_ERA: EraInfo = valid_era!("heisei", 1..=31);
 pub(crate) const JAPANESE_ERA: EraInfo = valid_era!("japanese", 1..=1868);
 pub(crate) const JAPANESE_INVERSE_ERA: EraInfo = valid_era!("japanese-inverse", 1..=i32::MAX);
-pub(crate) const MEJEI_ERA: EraInfo = valid_era!("mejei", 1..=45);
+pub(crate) const MEIJI_ERA: EraInfo = valid_era!("meiji", 1..=45);
 pub(crate) const REIWA_ERA: EraInfo = valid_era!("reiwa", 1..=i32::MAX);
 pub(crate) const SHOWA_ERA: EraInfo = valid_era!("showa", 1..=64);
-pub(crate) const TAISHO_ERA: EraInfo = valid_era!("showa", 1..=45);
+pub(crate) const TAISHO_ERA: EraInfo = valid_era!("taisho", 1..=45);
 pub(crate) const PERSIAN_ERA: EraInfo = valid_era!("persian", i32::MIN..=i32::MAX);
 pub(crate) const ROC_ERA: EraInfo = valid_era!("roc", 1..=i32::MAX);
 pub(crate) const ROC_INVERSE_ERA: EraInfo = valid_era!("roc-inverse", 1..=i32::MAX);
